@@ -388,6 +388,86 @@ theorem denotes_unique (s₁ s₂ : Time.Stamp) (j₁ j₂ : List UInt8) (h₁ :
     (e : s₁.render ++ j₁ = s₂.render ++ j₂) : s₁.denotes = s₂.denotes :=
   Time.denotes_unique s₁ s₂ j₁ j₂ h₁ h₂ i₁ i₂ e
 
+/-! ## Strengthened statements (theorem audit) -/
+
+/-- Audit #63: EVERY numeric operand is a timestamp; it denotes `int64(f)` milliseconds, whatever
+`f` is. -/
+theorem numeric_any (q : Rat) : Time.valueToTimestamp (.num q) = some (goInt q * 1000000) := rfl
+
+/-- `ratTrunc` is truncation toward zero: the floor of a non-negative number, the ceiling of a
+negative one; in both cases the integer part, less than one away from `q` and not beyond it. -/
+theorem ratTrunc_spec (q : Rat) :
+    (0 ≤ q → (ratTrunc q : Rat) ≤ q ∧ q < (ratTrunc q : Rat) + 1 ∧ 0 ≤ ratTrunc q) ∧
+    (q < 0 → q ≤ (ratTrunc q : Rat) ∧ (ratTrunc q : Rat) - 1 < q ∧ ratTrunc q ≤ 0) := by
+  have hcast : ∀ a : Rat, a < (a.floor : Rat) + 1 := by
+    intro a
+    have h := Rat.lt_floor_add_one a
+    have e : ((a.floor + 1 : Int) : Rat) = (a.floor : Rat) + 1 := by simp
+    rw [e] at h; exact h
+  have hfloor_nonneg : ∀ a : Rat, 0 ≤ a → 0 ≤ a.floor := by
+    intro a ha
+    rw [Rat.floor_def]
+    exact Int.ediv_nonneg (Rat.num_nonneg.mpr ha) (Int.natCast_nonneg _)
+  unfold ratTrunc
+  constructor
+  · intro h
+    have hn : q.num ≥ 0 := Rat.num_nonneg.mpr h
+    rw [if_pos hn]
+    exact ⟨Rat.floor_le q, hcast q, hfloor_nonneg q h⟩
+  · intro h
+    have hn : ¬ q.num ≥ 0 := by
+      intro hc
+      have := Rat.num_nonneg.mp hc
+      grind
+    rw [if_neg hn]
+    have h1 := Rat.floor_le (-q)
+    have h2 := hcast (-q)
+    have h3 : 0 ≤ (-q).floor := hfloor_nonneg (-q) (by grind)
+    have e : ((-(-q).floor : Int) : Rat) = -((-q).floor : Rat) := by simp
+    rw [e]
+    refine ⟨by grind, by grind, by omega⟩
+
+/-- A numeric operand whose integer part is in the int64 range denotes that integer part (fractional
+milliseconds are DROPPED, toward zero) times 10⁶ ns.  For the Go code: `time.UnixMilli(int64(f))`;
+`1500.9` and `1500.1` are the same instant, so neither is before nor after the other. -/
+theorem numeric_truncates (q : Rat) (h : int64Min ≤ ratTrunc q ∧ ratTrunc q ≤ int64Max) :
+    Time.valueToTimestamp (.num q) = some (ratTrunc q * 1000000) := by
+  rw [numeric_any]
+  unfold goInt
+  simp only
+  rw [if_neg (by omega)]
+
+/-- Outside the int64 range the conversion `int64(f)` yields the amd64 sentinel −2⁶³ (the Go
+specification leaves the result implementation-defined; the model and the harness fix the amd64
+behaviour, see `goInt`), so every such operand, however large and of either sign, denotes the same
+instant −2⁶³·10⁶ ns.  In particular a huge POSITIVE millisecond value is treated as lying in the
+remote past. -/
+theorem numeric_out_of_range (q : Rat) (h : ratTrunc q < int64Min ∨ ratTrunc q > int64Max) :
+    Time.valueToTimestamp (.num q) = some (int64Min * 1000000) := by
+  rw [numeric_any]
+  unfold goInt
+  simp only
+  rw [if_pos h]
+
+/-- Complete case split: every numeric operand falls under `numeric_truncates` or
+`numeric_out_of_range`. -/
+theorem numeric_cases (q : Rat) :
+    (int64Min ≤ ratTrunc q ∧ ratTrunc q ≤ int64Max ∧
+      Time.valueToTimestamp (.num q) = some (ratTrunc q * 1000000)) ∨
+    ((ratTrunc q < int64Min ∨ ratTrunc q > int64Max) ∧
+      Time.valueToTimestamp (.num q) = some (int64Min * 1000000)) := by
+  by_cases h : int64Min ≤ ratTrunc q ∧ ratTrunc q ≤ int64Max
+  · exact Or.inl ⟨h.1, h.2, numeric_truncates q h⟩
+  · refine Or.inr ⟨by omega, numeric_out_of_range q (by omega)⟩
+
+-- Non-vacuity: fractional milliseconds are truncated toward zero (both signs), and an operand beyond
+-- the range lands on the sentinel.
+example : Time.valueToTimestamp (.num (3001 / 2)) = some (1500 * 1000000) := by decide +kernel
+example : Time.valueToTimestamp (.num (-3001 / 2)) = some (-1500 * 1000000) := by decide +kernel
+example : ratTrunc (3001 / 2) = 1500 ∧ ratTrunc (-3001 / 2) = -1500 := by decide +kernel
+example : Time.valueToTimestamp (.num 9223372036854775808) =
+    some (-9223372036854775808 * 1000000) := by decide +kernel
+
 end LD.C18
 
 #print axioms LD.C18.string_denotes
@@ -409,3 +489,5 @@ end LD.C18
 #print axioms LD.C18.non_timestamp_clause_preprocessed
 #print axioms LD.C18.truncated_never_match
 #print axioms LD.C18.calendar
+#print axioms LD.C18.ratTrunc_spec
+#print axioms LD.C18.numeric_cases
